@@ -718,7 +718,14 @@ def gen_query(rng, N, cfg, kind=None):
     elif kind == "sample":
         q["C"] = rng.randint(1, 4)
         q["seed"] = rng.randrange(1000)
-        q["group_size"] = rng.choice([1, 2, 10])
+        q["group_size"] = rng.choice([1, 1, 2, 10])
+        if cfg["exact"] and rng.random() < 0.6:
+            # a subset of the qubits and / or an explicit measurement order: other conditioning events
+            sub = sorted(rng.sample(range(N), rng.randint(1, N))) if rng.random() < 0.7 else list(range(N))
+            q["qubits"] = sub
+            if rng.random() < 0.6:
+                q["order"] = rng.sample(sub, len(sub))
+            q["C"] = rng.choice([3, 24])
     elif kind == "rehearse":
         q["which"] = rng.choice(["amplitude", "to_dense", "partial_trace", "local_expectation", "sample"])
     elif kind == "ordering":
@@ -1226,15 +1233,33 @@ def run_query(ctx, cfg, circ, ref, q, N, viol, state):
         kw = {}
         if cfg["exact"]:
             kw = {"group_size": q["group_size"], "simplify_sequence": q.get("seq", "ADCRS")}
+            if q.get("qubits") is not None:
+                kw["qubits"] = tuple(q["qubits"])
+            if q.get("order") is not None:
+                kw["order"] = tuple(q["order"])
         kw.update(qopts)
         s1 = list(circ.sample(q["C"], seed=q["seed"], **kw))
         s2 = list(circ.sample(q["C"], seed=q["seed"], **kw))
         if s1 != s2:
             bad(f"same seed gave {s1} then {s2}", sub=":not_reproducible")
+        measured = list(q["qubits"]) if q.get("qubits") is not None else list(range(N))
+        pm = np.asarray(ref.marginal(measured, None), dtype=float)  # exact distribution of the measured qubits (axes as `measured`)
         for b in s1:
-            if len(b) != N or ref.prob(b) < 1e-9:
-                bad(f"sampled bitstring {b} has probability {ref.prob(b) if len(b) == N else 'n/a'} in the reference state", sub=":zero_probability_string")
+            pb = float(pm[tuple(int(x) for x in b)]) if len(b) == len(measured) else -1.0
+            if not pb > 1e-9:
+                bad(f"sampled bitstring {b} of qubits {measured} has probability {pb if pb >= 0 else 'n/a'} in the reference state",
+                    sub=":zero_probability_string")
                 break
+        else:
+            if q["C"] >= 24:
+                emp = np.zeros_like(pm)
+                for b in s1:
+                    emp[tuple(int(x) for x in b)] += 1.0 / len(s1)
+                tv = 0.5 * float(np.abs(emp - pm).sum())
+                # total variation of an empirical distribution of C samples over k outcomes is ~ sqrt(k / C) / 2
+                if tv > 0.5 * math.sqrt(pm.size / len(s1)) + 0.3:
+                    bad(f"{len(s1)} samples of qubits {measured} are at total-variation distance {tv:.2f} from the exact distribution",
+                        sub=":wrong_distribution")
     elif kind == "mps_sample_prob":
         # the MPS sampler reports the probability of each configuration
         psi = circ.get_psi_unordered() if cfg["perm"] else circ.psi
@@ -1648,6 +1673,143 @@ def _lightcone_searcher(ctx, failed, info):
 
 
 # =============================================================================
+# sampler histories: several sample() calls on one unchanged circuit
+# =============================================================================
+
+
+def _gd(label, *args, controls=()):
+    npar = nparams(label)
+    return {"op": "gate", "kind": "x", "label": label, "params": list(args[:npar]), "qubits": list(args[npar:]), "controls": list(controls),
+            "parametrize": False, "raw_seed": None, "round": None, "how": "string"}
+
+
+def run_sample_history(ctx, cfgname, N, gates, calls):
+    """The memoised conditionals live on the circuit across sample() calls.  Every call of the history - other qubit
+    subsets, orders, group sizes - must (a) only produce strings of non-zero probability and follow the exact distribution
+    of the measured qubits, (b) behave like the same call on a twin circuit that was never sampled; finally (c) every
+    cached conditional must equal the conditional computed afresh for the event its key names."""
+    C = configs()
+    cfg = C[cfgname]
+    circ, ref = cfg["mk"](N), Ref(N)
+    for gd in gates:
+        apply_to_circuit(circ, gd)
+        ref.apply(ref_descr(gd))
+    rep = {"config": cfgname, "N": N, "gates": gates, "sample_calls": calls}
+
+    def viol(key, what, upto):
+        ctx.violation(key, what, {**rep, "sample_calls": calls[: upto + 1]})
+
+    def tv_and_support(samples, pm):
+        emp = np.zeros_like(pm)
+        for b in samples:
+            ix = tuple(int(x) for x in b)
+            if not pm[ix] > 1e-9:
+                return None, b
+            emp[ix] += 1.0 / len(samples)
+        return 0.5 * float(np.abs(emp - pm).sum()), None
+
+    for k, call in enumerate(calls):
+        kw = {"qubits": tuple(call["qubits"]), "group_size": call["group_size"], "seed": call["seed"], "dtype": "complex128"}
+        if call.get("order") is not None:
+            kw["order"] = tuple(call["order"])
+        pm = np.asarray(ref.marginal(list(call["qubits"]), None), dtype=float)
+        thr = 0.5 * math.sqrt(pm.size / call["C"]) + 0.25
+        ctx.bump("sample_history_call")
+        try:
+            got = list(circ.sample(call["C"], **kw))
+        except Exception as e:
+            viol(f"{cfg['base']}:sample:history:raised", f"{cfgname}.sample({kw}) raised {type(e).__name__}: {str(e)[:120]} after the earlier calls "
+                 f"{calls[:k]} on the same circuit", k)
+            return
+        tv, badstr = tv_and_support(got, pm)
+        if badstr is not None:
+            viol(f"{cfg['base']}:sample:history:zero_probability_string",
+                 f"call {k} ({kw}) on a circuit already sampled with {calls[:k]} produced {badstr}, whose exact probability is 0", k)
+            return
+        if tv > thr:
+            viol(f"{cfg['base']}:sample:history:wrong_distribution",
+                 f"call {k} ({kw}) after {calls[:k]}: total-variation distance {tv:.2f} from the exact distribution of qubits {call['qubits']}", k)
+            return
+        # (b) the same call on a twin that has never been sampled
+        twin = cfg["mk"](N)
+        for gd in gates:
+            apply_to_circuit(twin, gd)
+        fresh = list(twin.sample(call["C"], **kw))
+        if fresh != got:
+            emp_a, emp_b = np.zeros_like(pm), np.zeros_like(pm)
+            for b in got:
+                emp_a[tuple(int(x) for x in b)] += 1.0 / len(got)
+            for b in fresh:
+                emp_b[tuple(int(x) for x in b)] += 1.0 / len(fresh)
+            d = 0.5 * float(np.abs(emp_a - emp_b).sum())
+            if d > thr:
+                viol(f"{cfg['base']}:sample:history:depends_on_earlier_calls",
+                     f"call {k} ({kw}) gives a different distribution (TV {d:.2f}) on the circuit already sampled with {calls[:k]} than on a fresh twin", k)
+                return
+    # (c) cached conditionals vs fresh ones for the event named by the key
+    twin = cfg["mk"](N)
+    for gd in gates:
+        apply_to_circuit(twin, gd)
+    for key, p in list(dict.items(circ._sampled_conditionals)):
+        try:
+            where, pairs = key
+            fix = {int(q): str(b) for q, b in pairs}
+            where = tuple(int(w) for w in where)
+        except Exception:
+            continue  # not the documented key format: reported by the key correspondence
+        if float(np.asarray(ref.marginal(list(where), fix)).sum()) < 1e-12:
+            continue
+        fp = np.asarray(twin.compute_marginal(where, fix=fix, dtype="complex128"), dtype=float)
+        fp = fp / fp.sum()
+        if np.asarray(p).shape != fp.shape or not np.allclose(np.asarray(p, dtype=float), fp, atol=1e-6):
+            viol(f"{cfg['base']}:sample:history:cached_conditional_differs_from_fresh",
+                 f"_sampled_conditionals[{key!r}] = {np.asarray(p).tolist()} but p{where} given {fix} computed afresh is {fp.tolist()}", len(calls) - 1)
+            return
+
+
+def sample_history_stage(ctx, budget=None):
+    rng = ctx.rng
+    n = budget if budget is not None else ctx.n(10, 150)
+    for it in range(n):
+        cfgname = rng.choice(["Circuit", "Circuit", "Circuit[contract=False]", "CircuitDense"])
+        N = rng.randint(3, 5)
+        # correlated qubits: a few superposed roots, CX fan-outs, bit flips, sometimes a rotation
+        gates = []
+        roots = rng.sample(range(N), rng.randint(1, 2))
+        for r in roots:
+            gates.append(_gd("H", r) if rng.random() < 0.7 else _gd("RY", rng.choice([0.875, 1.375, 2.125]), r))
+        for q in range(N):
+            if q not in roots:
+                gates.append(_gd("CX", rng.choice(roots), q))
+                if rng.random() < 0.4:
+                    gates.append(_gd("X", q))
+        for _ in range(rng.randint(0, 2)):
+            a, b = rng.sample(range(N), 2)
+            gates.append(_gd(rng.choice(["CX", "CZ"]), a, b) if rng.random() < 0.7 else _gd("RY", 0.375, a))
+        calls = []
+        for _ in range(rng.randint(2, 4)):
+            sub = sorted(rng.sample(range(N), rng.randint(2, N)))
+            order = rng.sample(sub, len(sub)) if rng.random() < 0.6 else None
+            calls.append({"qubits": sub, "order": order, "group_size": rng.choice([1, 1, 1, 2]), "C": 48, "seed": rng.randrange(1000)})
+        ctx.count(("sample_history", cfgname, N, json.dumps(gates), json.dumps(calls)), True)
+        ctx.bump("sample_history")
+        try:
+            run_sample_history(ctx, cfgname, N, gates, calls)
+        except Exception as e:
+            ctx.violation("Circuit:sample:history:harness_raised", f"{type(e).__name__}: {e}", {"config": cfgname, "N": N, "gates": gates, "sample_calls": calls})
+    # the documented two-call pattern: the same target conditioned on another qubit of a correlated register
+    ghz = [_gd("H", 0), _gd("CX", 0, 2), _gd("CX", 0, 1), _gd("X", 1)]
+    for cfgname in ("Circuit", "CircuitDense"):
+        for calls in ([{"qubits": [0, 2], "order": [0, 2], "group_size": 1, "C": 48, "seed": 1}, {"qubits": [1, 2], "order": [1, 2], "group_size": 1, "C": 48, "seed": 2}],
+                      [{"qubits": [0, 1, 2], "order": [0, 2, 1], "group_size": 1, "C": 48, "seed": 3}, {"qubits": [0, 1, 2], "order": [1, 2, 0], "group_size": 1, "C": 48, "seed": 4}]):
+            ctx.count(("sample_history", cfgname, "ghz", json.dumps(calls)), True)
+            try:
+                run_sample_history(ctx, cfgname, 3, ghz, calls)
+            except Exception as e:
+                ctx.violation("Circuit:sample:history:harness_raised", f"{type(e).__name__}: {e}", {"config": cfgname, "N": 3, "gates": ghz, "sample_calls": calls})
+
+
+# =============================================================================
 # (3b) cache correspondence
 # =============================================================================
 
@@ -1655,20 +1817,21 @@ def _lightcone_searcher(ctx, failed, info):
 class LogDict(dict):
     """dict that logs membership tests / failed lookups (shared log)"""
 
-    def __init__(self, log, *a):
+    def __init__(self, log, which, *a):
         super().__init__(*a)
         self._log = log
+        self._which = which
 
     def __contains__(self, k):
         r = dict.__contains__(self, k)
-        self._log.append((k, r))
+        self._log.append((k, r, self._which))
         return r
 
     def __getitem__(self, k):
         try:
             return dict.__getitem__(self, k)
         except KeyError:
-            self._log.append((k, False))
+            self._log.append((k, False, self._which))
             raise
 
 
@@ -1708,14 +1871,15 @@ def cache_stage(ctx):
         log = []
 
         def wrap(c):
-            c._storage = LogDict(log, c._storage)
-            c._sampled_conditionals = LogDict(log, c._sampled_conditionals)
+            c._storage = LogDict(log, "storage", c._storage)
+            c._sampled_conditionals = LogDict(log, "cond", c._sampled_conditionals)
 
         wrap(circ)
         ops_coq, obs, descr = [], [], []
         pool_sq = rng.choice(SEQS)  # most queries of one program share their simplification options (repeats -> hits)
         repeated_across_mutation = False
         seen_at, nmut, history = {}, 0, []
+        key_event, collided = {}, {"flag": False}  # conditional key -> conditioning event (reset whenever the storage is cleared)
         for _ in range(rng.randint(3, 12)):
             r = rng.random()
             log.clear()
@@ -1779,10 +1943,10 @@ def cache_stage(ctx):
                             spec["qs"] = qs
                         elif qk == "sample":
                             spec["gs"] = rng.choice([1, 1, 2, 10])
+                            spec["qubits"] = sorted(rng.sample(range(N), rng.randint(1, N))) if rng.random() < 0.5 else list(range(N))
                             spec["order"] = None
-                            if rng.random() < 0.3:
-                                spec["order"] = list(range(N))
-                                rng.shuffle(spec["order"])
+                            if rng.random() < 0.4:
+                                spec["order"] = rng.sample(spec["qubits"], len(spec["qubits"]))
                             spec["seed"] = rng.randrange(100)
                         history.append(spec)
                     qk, sq, at = spec["qk"], spec["sq"], spec["at"]
@@ -1822,14 +1986,33 @@ def cache_stage(ctx):
                         ops_coq.append(f"Query (q_order {natlist(qs)})")
                         tag = ("order", tuple(sorted(qs)))
                     else:
-                        gs, order = spec["gs"], spec["order"]
+                        gs, order, qsub = spec["gs"], spec["order"], spec["qubits"]
                         given = order is not None
-                        (b,) = list(circ.sample(1, order=order, group_size=gs, seed=spec["seed"], dtype="complex128", **so))
-                        used = tuple(order) if given else dict.__getitem__(circ._storage, ("lightcone_ordering", "greedy-lightcone", tuple(range(N))))
+                        nlog = len(log)
+                        (b,) = list(circ.sample(1, qubits=tuple(qsub), order=order, group_size=gs, seed=spec["seed"], dtype="complex128", **so))
+                        used = tuple(order) if given else dict.__getitem__(circ._storage, ("lightcone_ordering", "greedy-lightcone", tuple(sorted(qsub))))
                         groups = circ._group_order(used, gs)
-                        bits = "[" + "; ".join(f"({natlit(i)}, {natlit(int(x))})" for i, x in enumerate(b)) + "]"
-                        ops_coq.append(f"Sample {natlit(N)} {blit(given)} {nll([list(g_) for g_ in groups])} {bits} {s_} {a_}")
-                        tag = ("sample", gs, sq, at, tuple(order) if given else None)
+                        outcome = dict(zip(qsub, b))  # the sample lists the measured qubits in the order of `qubits`
+                        bits = "[" + "; ".join(f"({natlit(i)}, {natlit(int(outcome[i]))})" for i in qsub) + "]"
+                        ops_coq.append(f"Sample {natlit(N)} {natlist(qsub)} {blit(given)} {nll([list(g_) for g_ in groups])} {bits} {s_} {a_}")
+                        # property level: a conditional key must determine the conditioning event.  The events of this pass are
+                        # known (group, outcomes of the earlier groups); pair them with the keys looked up in _sampled_conditionals
+                        touched = [k for k, _h, which in log[nlog:] if which == "cond"]
+                        fixed, events = {}, []
+                        for g_ in groups:
+                            events.append((tuple(g_), tuple(sorted(fixed.items()))))
+                            for qq in g_:
+                                fixed[qq] = outcome[qq]
+                        if len(touched) == len(events):
+                            for k_, ev_ in zip(touched, events):
+                                prev = key_event.setdefault(repr(k_), ev_)
+                                if prev != ev_:
+                                    ctx.violation("Circuit.sample:conditional_key_does_not_determine_event",
+                                                  f"the memoised conditional key {k_!r} was used for p{prev[0]} given {dict(prev[1])} and now for "
+                                                  f"p{ev_[0]} given {dict(ev_[1])}: a later hit returns the conditional of another event",
+                                                  {"N": N, "ops": descr + ["sample"], "specs": history, "key": repr(k_), "events": [prev, ev_]})
+                                    collided["flag"] = True
+                        tag = ("sample", gs, sq, at, tuple(qsub), tuple(order) if given else None)
                     descr.append(qk)
                     if tag in seen_at and seen_at[tag] < nmut:
                         repeated_across_mutation = True
@@ -1838,12 +2021,17 @@ def cache_stage(ctx):
                 ctx.violation("Circuit:cache_program:raised", f"{type(e).__name__}: {e}", {"N": N, "ops": descr})
                 break
             try:
-                ev = "[" + "; ".join(f"({key_lit(k, is_cond_key(k))}, {blit(h)})" for k, h in log) + "]"
+                ev = "[" + "; ".join(f"({key_lit(k, which == 'cond')}, {blit(h)})" for k, h, which in log) + "]"
                 ks = "[" + "; ".join(key_lit(k) for k in dict.keys(circ._storage)) + "]"
                 kc = "[" + "; ".join(key_lit(k, True) for k in dict.keys(circ._sampled_conditionals)) + "]"
-            except (ValueError, AssertionError) as e:
+            except (ValueError, AssertionError, TypeError, IndexError) as e:
                 ctx.broken_obligation("correspondence:cache:unknown_key", repr(e))
+                NEED_SAMPLE_SEARCH["flag"] = True
                 break
+            if not dict.__len__(circ._sampled_conditionals):
+                key_event.clear()
+            if collided["flag"]:
+                NEED_SAMPLE_SEARCH["flag"] = True
             obs.append(f"({ev}, {ks}, {kc}, {zlit(circ._sample_n_gates)})")
         if not ops_coq or len(ops_coq) != len(obs):
             continue
@@ -1854,6 +2042,9 @@ def cache_stage(ctx):
         if cid == 2:
             ctx.sample({"stream": "cache", "N": N, "ops": descr, "impl_observations": obs[:3]})
     PENDING.append(("cache", cases, info, _cache_searcher))
+
+
+NEED_SAMPLE_SEARCH = {"flag": False}
 
 
 def _cache_searcher(ctx, failed, info):
@@ -1978,9 +2169,16 @@ def run(ctx):
         "C07/Ctrl.vo", "C07/LightconeModel.vo", "C07/Lightcone.vo", "C07/RecordModel.vo", "C07/Record.vo", "C07/Mutators.vo", "C07/Inventory.vo", "C07/Props.v",
     ])
     PENDING.clear()
+    NEED_SAMPLE_SEARCH["flag"] = False
     timed(perm_stage)
     timed(cache_stage)
     timed(lightcone_stage)
+
+    def sample_histories(c):
+        sample_history_stage(c, budget=c.n(40, 150) if NEED_SAMPLE_SEARCH["flag"] else None)
+
+    sample_histories.__name__ = "sample_history_stage"
+    timed(sample_histories)
     OWNERSHIP_SEEN.clear()
     timed(targeted_stage)
     timed(oracle_stage)
@@ -1993,7 +2191,9 @@ def replay(ctx, path):
     with open(path) as f:
         d = json.load(f)
     r = d.get("replay", d)
-    if isinstance(r, dict) and "program" in r and "config" in r:
+    if isinstance(r, dict) and "sample_calls" in r and "gates" in r:
+        run_sample_history(ctx, r["config"], r["N"], r["gates"], r["sample_calls"])
+    elif isinstance(r, dict) and "program" in r and "config" in r:
         cfg = configs()[r["config"]]
         try:
             run_program(ctx, cfg, r["N"], r["program"], r.get("check_each_gate", True))
